@@ -23,7 +23,7 @@ CLAIMED = {
     },
     "C02": {
         "technique": "Coq proof (the copies of grow/shrink stay inside the block handed out, copy_nonoverlapping only on disjoint ranges, prefix preserved; frame from C01 disjointness) + byte-level driver checks",
-        "text": "C02_shrink_copies / C02_grow_copies / C02_frame / C02_alloc_copies_nothing / C02_dealloc_copies_nothing over a byte-memory model; the driver writes PRNG patterns into every block, re-reads every live block after every fourth operation and at the end, and logs closure call orders of the fill flavours. " + ARENA_TEXT + "Partial: value initialisation by the typed flavours is glue outside the model (driver-checked only).",
+        "text": "C02_shrink_copies / C02_grow_copies / C02_frame / C02_alloc_copies_nothing / C02_dealloc_copies_nothing over a byte-memory model; the driver writes PRNG patterns into every block, re-reads every live block after every fourth operation and at the end, and logs closure call orders of the fill flavours. " + ARENA_TEXT + "Partial: value initialisation by the typed flavours is glue outside the model (driver-checked only). C02_source_frames (how lib.rs places values — one write of the initialiser's result, a copy of exactly src.len() elements, clones and fill initialisers in index order with one call per index — pinned as text and re-checked against /repo on every run).",
         "design_ref": "DESIGN.md §6 C02",
     },
     "C03": {
